@@ -353,8 +353,8 @@ func TestC14(t *testing.T) {
 	s := newSuite(t, "C14",
 		"server receiving: 1..5 uploads (sizes up to 200000, chunk 1..16128, padding 0..255 per frame which counts against the window, empty frames, 1..3 interleaved), some ending in a stream error (body over MaxRequestBodySize with further frames in flight, content-length mismatch, peer RST mid-body), the list repeated 1..20 times or, in long cases, until 2.2 connection windows (65535+4MiB each) have been sent on the one connection; the sender is a model that sends only when its ledger (from the server's SETTINGS and WINDOW_UPDATEs) allows and otherwise waits for quiescence. Oracle: no WINDOW_UPDATE of 0, no window above 2^31-1; at quiescence a sender that still has octets for a stream that is open at the server can send (else: starved; a cumulative leak shows as starvation in the long cases). Non-trivial = more than two connection windows moved with at least one errored stream, or padded frames; distinct by case hash.")
 	defer s.finish()
-	runLane(s, Lane[c14Case]{Name: "server", Journal: true, Quick: 800, Thor: 100000, Gen: c14Gen, Run: c14Run})
-	runLane(s, Lane[c14CCase]{Name: "client", Journal: true, Quick: 96, Thor: 20000, Gen: c14CGen, Run: c14CRun})
+	runLane(s, Lane[c14Case]{Name: "server", Journal: true, Quick: 800, Thor: 12000, Gen: c14Gen, Run: c14Run})
+	runLane(s, Lane[c14CCase]{Name: "client", Journal: true, Quick: 96, Thor: 1600, Gen: c14CGen, Run: c14CRun})
 }
 
 // ---- client receiving -------------------------------------------------------
